@@ -28,6 +28,31 @@ CLAIMED["C18"] = (
     "DESIGN.md section 4 C18",
 )
 
+CLAIMED["C07"] = (
+    "per-return GUARD (CFG reachability after deleting fact edges) on all point/GT decoders, definite-assignment and exposed-read analysis, who-may-call (strict parsers), error-discipline and raw-Read lints on the stream codec, parallel-validation protocol check, guarded-slicing prover",
+    "Decides, for every point decoder of the 10 curves, the 8 twisted-Edwards packages and the 7 GT types: each accepting return is the zero-payload infinity branch or has every coordinate parsed strictly with the error tested and recovered coordinates backed by a checked square root; subgroup membership dominates acceptance when enabled; on-curve membership on every accepting return (17 known findings: raw decoding with NoSubgroupChecks); destinations fully written and never read first; no lenient parser; every codec error inspected and not overwritten in loops; no raw Read; the parallel phase of Decoder.Decode counts every failure and the counter is tested before accepting.",
+    "Trusts IsInSubGroup/IsOnCurve/isZeroed as named (C02), go/ssa as model. Round-trip equality of values and the exact acceptance set beyond these facts are not decided.",
+    "DESIGN.md section 4 C07",
+)
+CLAIMED["C08"] = (
+    "GUARD on strict decoders, definite-assignment / exposed-read analysis of every Element setter, parallel-validation protocol of AsyncReadFrom, pool typestate, codec error lint",
+    "Decides for the 23 field packages: ByteOrder.Element / SetBytesCanonical / Vector.ReadFrom accept only after the canonical comparison and exact-length facts; every setter (322 methods) writes the whole element on accept and never reads it first (so no limb of a previous value survives); AsyncReadFrom's worker counts non-canonical elements and the collector reports them before closing; pooled big.Int are defined before being read, not used after Put, not leaked.",
+    "Trusts smallerThanModulus (constants checked in C01), math/big summaries. Value-level round trips and text formatting are not decided.",
+    "DESIGN.md section 4 C08",
+)
+CLAIMED["C12"] = (
+    "GUARD tables written from the schemes (flow-sensitive descriptions distinguish the r and s range checks), definite assignment, byte-count constant evaluation, raw-Read and error lints",
+    "Decides for 8 EdDSA and 10 ECDSA packages: signature and key decoders accept only with exact length, separate 0 < component < modulus/order tests, parsed and on-curve points; Verify returns true only after a parsed signature and the final equalities (ECDSA: x reduced mod n compared with r; EdDSA: both coordinates, hFunc != nil, A on curve); destinations fully defined; reported byte counts equal consumed bytes; no raw Read; errors inspected.",
+    "Trusts G1Affine.SetBytes / PointAffine.SetBytes (decided in C07) and std crypto contracts. 'Honest signatures verify' and agreement with an independent implementation are not decided.",
+    "DESIGN.md section 4 C12",
+)
+CLAIMED["C14"] = (
+    "guarded-slicing prover, GUARD tables, must-write comparison SetState vs Reset, slice provenance, lazy-init dominance over the call graph, registry/table agreement by constant evaluation of declarations",
+    "Decides: Write/SetState/Compress/SIS.Hash never slice the caller's bytes beyond proven bounds and accept only canonical, well-sized input; SetState redefines everything Reset redefines; MiMC Sum/State are fresh and Write/SetState do not retain; round constants are read only after once.Do; every hash.Hash constant is registered once in the matching package, digestSize equals the registered hasher's digest size, String() and hash/all cover all; BlockSize equals the length Compress requires.",
+    "Equality with the Miyaguchi-Preneel / Poseidon2 / SIS definitions is not decided (value level). The Merkle-Damgard wrapper's Sum(b) absorbing b and exposing its state slice is noted in DESIGN.md, not claimed.",
+    "DESIGN.md section 4 C14",
+)
+
 NOT_YET = "check not built yet in this revision of /verif (see DESIGN.md section 4 for the planned structural clauses); the value-level core is not decidable by static analysis"
 
 def main():
